@@ -13,7 +13,7 @@ R == INSTANCE Req
 ParamLists == UNION { [1..n -> ParamTys] : n \in 0..MaxParams }
 Fn0(dk, pass, ps, bound, lw, as, q, ret, gn) ==
   [deps |-> [kind |-> dk, pass |-> pass], params |-> ps, bound |-> bound, lwhere |-> lw, async |-> as, qual |-> q, ret |-> ret, gname |-> gn,
-   cfirst |-> FALSE, cform |-> "path"]
+   cfirst |-> FALSE, cform |-> "path", dvar |-> "plain"]
 Fn(dk, pass, ps, bound, lw, as, q, ret, gn) == Fn0(dk, pass, ps, bound, lw, as, q, ret, gn)
 FnOK(f) ==
   /\ (f.deps.kind = "nodeps" => f.deps.pass = "ref" /\ f.ret # "borrow-deps")
@@ -25,9 +25,9 @@ FnOK(f) ==
                                      /\ \A j \in DOMAIN f.params : j > 1 => f.params[j] \notin {"ref", "reflife"}
                                      /\ (f.deps.kind = "nodeps" \/ f.deps.pass = "value"))
   /\ (f.lwhere # "none" => Len(f.params) = 2 /\ f.params[1] = "reflife" /\ f.params[2] = "reflife")
-  /\ (f.bound = "where" => \E i \in DOMAIN f.params : f.params[i] = "generic")
+  /\ (f.bound \in {"where", "whereassoc"} => \E i \in DOMAIN f.params : f.params[i] = "generic")
   /\ (f.qual = "extern" => ~f.async)
-FnsBase == { f \in { Fn(dk, pa, ps, bo, lw, as, q, re, "U") : dk \in DepKinds, pa \in Passes, ps \in ParamLists, bo \in {"inline", "where"},
+FnsBase == { f \in { Fn(dk, pa, ps, bo, lw, as, q, re, "U") : dk \in DepKinds, pa \in Passes, ps \in ParamLists, bo \in {"inline", "where", "whereassoc"},
                                                          lw \in {"none", "where", "inline"}, as \in BOOLEAN, q \in Quals, re \in Rets } : FnOK(f) }
 \* two rendering variants of the same abstract function: the const parameter first; the concrete dependency as a bare identifier
 Fns == FnsBase \cup { [f EXCEPT !.cfirst = TRUE] : f \in { g \in FnsBase : HasArray(g) } }
@@ -35,7 +35,10 @@ Fns == FnsBase \cup { [f EXCEPT !.cfirst = TRUE] : f \in { g \in FnsBase : HasAr
 \* modes: one fn; a module of one fn; a module of two fns with different / the same generic names; impl blocks (no lifted generics)
 Simple(f) == \A i \in DOMAIN f.params : f.params[i] \in {"owned", "ref", "reflife"}
 Second(same) == Fn("generic", "ref", <<"generic">>, "inline", "none", FALSE, "plain", "unit", IF same THEN "U" ELSE "V")
-Inputs == { [mode |-> "fn", fns |-> <<f>>] : f \in Fns }
+\* how a by-reference named dependency parameter is spelled (single fn only): bound by `where for<'x> D: HasLt<'x>`; with a relaxed
+\* bound `?Sized`; the type in parentheses `(&D)`; the type handed in through a `$t:ty` macro fragment (an invisible group)
+DepVariants == { [f EXCEPT !.dvar = v] : f \in { g \in FnsBase : g.deps.kind = "generic" /\ g.deps.pass = "ref" }, v \in {"hrtb", "relaxed", "paren", "group"} }
+Inputs == { [mode |-> "fn", fns |-> <<f>>] : f \in Fns \cup DepVariants }
           \cup { [mode |-> "mod1", fns |-> <<f>>] : f \in { g \in Fns : g.deps.kind # "concrete" } }
           \* (no_deps is an option of the whole module: a second function with a dependency needs the first one to have one too)
           \cup { [mode |-> "mod2diff", fns |-> <<f, Second(FALSE)>>] : f \in { g \in Fns : g.deps.kind \notin {"concrete", "nodeps"} /\ g.qual = "plain" } }
